@@ -126,6 +126,13 @@ func namedSpecs() []spec.Spec {
 			els("p"),
 			{Op: "AllowElementsContent", Names: []string{"iframe", "title", "noscript"}},
 		}},
+		{Name: "pattern-std-names", Base: "new", Calls: []C{
+			{Op: "AllowNoAttrs", Scope: "matching", OnRe: `^(b|object|title|iframe|my-[a-z]+)$`},
+			attrsPat([]string{"id", "src", "data"}, "", `^(object|iframe|img|p)$`),
+			{Op: "AllowNoAttrs", Scope: "matching", OnRe: `^zz-`},
+		}},
+		{Name: "ugc-spaces-comments", Base: "ugc", Calls: []C{opt("AddSpaceWhenStrippingTag", true), {Op: "AllowComments"}}},
+		{Name: "literal-bp", Base: "literal", Calls: []C{els("b", "p"), attrsGlob([]string{"id"}, "")}},
 		{Name: "everything-named", Base: "new", Calls: []C{
 			{Op: "AllowElementsMatching", Re: `^[a-z0-9-]+$`},
 			attrsGlob([]string{"id", "class", "title", "href", "src", "name"}, ""),
